@@ -62,12 +62,17 @@ MEMCFGS = ['memtree', 'memtree+val', 'prefix+memtree', 'prefix+memtree+val', 'pr
 
 
 def _stats(ctx, path):
-    if os.path.exists(path):
+    """Sum the per-process counter files the driver wrote (<path>.<pid>.json); *max* counters take the maximum."""
+    import glob
+    tot = {}
+    for f in glob.glob(path + '.*.json'):
         try:
-            return json.load(open(path))
+            d = json.load(open(f))
         except Exception:
-            return {}
-    return {}
+            continue
+        for k, v in d.items():
+            tot[k] = max(tot.get(k, 0), v) if k.startswith('max_') else tot.get(k, 0) + v
+    return tot
 
 
 def _mc(ctx, q):
@@ -134,20 +139,21 @@ def run_c01(ctx, q, b, stats):
     big = ctx.tlc_sim('StateStore_MC', 'StateStore_GenC01.cfg', num=n, depth=26, timeout=7200)
     ctx.replay(b, big, opts=dict(cfgs='plain/prefix', api='mix', salt=2, stats=stats, shape=1), par=8, timeout=7200)
     # the in-memory node cache, each store in a process of its own; Reopen is a process restart
-    sub = big[:len(big) // 4]
-    ctx.replay(b, sub, opts=dict(cfgs='plain', ccfgs='memtree+val/prefix+memtree', api='store', salt=3, stats=stats), par=6, count=False, timeout=7200)
+    keep = os.path.join(ctx.scratch, 'keep')
+    sub = big[:len(big) // 4] if q else big[:len(big) // 10]
+    ctx.replay(b, sub, opts=dict(cfgs='plain', ccfgs='memtree+val', kcfgs='prefix+memtree', api='store', salt=3, stats=stats, keepdir=keep), par=6, count=False, timeout=7200)
     if not q:
         for sd in range(1, 3):
             more = ctx.tlc_sim('StateStore_MC', 'StateStore_GenC01.cfg', num=n, depth=26, seed=ctx.seed * 100 + sd, timeout=7200)
             ctx.replay(b, more, opts=dict(cfgs='plain/prefix', api='mix', salt=3 + sd, stats=stats, shape=1), par=8, timeout=7200)
-            ctx.replay(b, more[:len(more) // 6], opts=dict(cfgs='prefix', ccfgs='memtree/prefix+memtree+val', api='tree', salt=6 + sd,
-                                                          restart='kill', stats=stats), par=6, count=False, timeout=7200)
+            ctx.replay(b, more[:len(more) // 10], opts=dict(cfgs='prefix', ccfgs='memtree', kcfgs='prefix+memtree+val/prune+memtree', api='tree', salt=6 + sd,
+                                                           restart='kill', stats=stats, keepdir=keep), par=6, count=False, timeout=7200)
     # recordings over a large alphabet
     ctx.validate_recording(b, 'StateStore_Trace', 'StateStore_Trace.cfg', recorder='seq',
                            opts=dict(n=3 if q else 10, keys=64, vals=4, maxbatch=40, depth=40 if q else 80, mode='direct', cfgs='plain/prefix'),
                            selftest=True, timeout=7200)
     ctx.validate_recording(b, 'StateStore_Trace', 'StateStore_TraceBig.cfg', recorder='seq',
-                           opts=dict(n=1 if q else 4, keys=512, vals=4, maxbatch=300, depth=24 if q else 50, mode='direct', cfgs='prefix/plain', salt=1),
+                           opts=dict(n=1 if q else 4, keys=512, vals=4, maxbatch=300, depth=60 if q else 150, mode='direct', cfgs='prefix/plain', salt=1),
                            selftest=False, timeout=7200)
 
 
@@ -156,8 +162,8 @@ def run_c02(ctx, q, b, stats):
                 'earlier updates again at other heights, directly or as pending update, between unrelated pending updates, '
                 'commits, rollbacks and reopen), each applied step by step to store instances under several storage '
                 'configurations at once (5 without node cache + 1 memTree configuration in the long-lived replay process, '
-                '2-3 memTree configurations in fresh child processes; the memTree configuration of the long-lived process '
-                'rotates over runs so that all 12 configurations occur in both roles); every Set/MemSet reply must be the '
+                'the prefixing/pruning/MVCC memTree configurations in long-lived child processes whose single database serves all '
+                'behaviours of a worker and in fresh child processes, rotating so that all 12 configurations occur); every Set/MemSet reply must be the '
                 'same hash in all instances and equal to the process-wide binding of the concrete term; non-trivial = '
                 '>= 2 instances AND (some root computed more than once OR an update computed after an unrelated pending '
                 'update / rollback); distinct by abstract action sequence')
@@ -166,26 +172,29 @@ def run_c02(ctx, q, b, stats):
     ctx.extra['exhaustive_small_config'] = dict(cfg=cfg, behaviours=len(allb))
     n = 100 if q else 700
     sim = ctx.tlc_sim('StateStore_MC', 'StateStore_GenC02.cfg', num=n, depth=14, timeout=7200)
-    # the exhaustive export under every configuration that needs no process of its own (+ one memTree configuration)
-    ctx.replay(b, allb, opts=dict(cfgs='/'.join(LOCAL_PLAIN + ['prefix+memtree+val']), api='store', salt=1, variants=2, stats=stats),
-               par=8, timeout=7200)
-    rounds = MEMCFGS[:6] if not q else MEMCFGS[:3]
-    used = set(LOCAL_PLAIN + ['prefix+memtree+val'])
-    per = 60 if q else 250
-    for i, mem in enumerate(rounds):
-        others = [m for m in MEMCFGS if m != mem]
-        # memTree configurations in children; mvcc+memtree+val only ever in a child (a process holds one configuration
-        # of the global node cache at a time, as in production)
-        ch = [others[(2 * i) % len(others)], others[(2 * i + 1) % len(others)]]
-        if i % 2 == 0 and 'mvcc+memtree+val' not in ch:
-            ch.append('mvcc+memtree+val')
-        used.update([mem] + ch)
-        k = (i * len(sim)) // len(rounds)
+    keep = os.path.join(ctx.scratch, 'keep')
+    # In the replay process itself: the configurations without node cache plus ONE of memtree / memtree+val (the global
+    # cache is keyed by node hash; only without prefixing does a hash determine the children, so only then may several
+    # databases share a process). The prefixing / pruning / MVCC memTree configurations run in child processes with one
+    # database each: long-lived ones (kcfgs: the same store serves all behaviours of a worker, its cache history keeps
+    # growing) and fresh ones (ccfgs: a new process and database per behaviour).
+    PFX = ['prefix+memtree', 'prefix+memtree+val', 'prune+memtree', 'prune+memtree+val', 'mvcc+memtree+val', 'memtree', 'memtree+val']
+    ctx.replay(b, allb, opts=dict(cfgs='/'.join(LOCAL_PLAIN + ['memtree+val']), kcfgs='prefix+memtree/prune+memtree+val', api='store',
+                                 salt=1, variants=2, stats=stats, keepdir=keep), par=8, timeout=7200)
+    used = set(LOCAL_PLAIN + ['memtree+val', 'prefix+memtree', 'prune+memtree+val'])
+    nround = 2 if q else 7
+    per = 40 if q else 120
+    for i in range(nround):
+        mem = ['memtree', 'memtree+val'][i % 2]
+        kc = [PFX[(2 * i) % len(PFX)], PFX[(2 * i + 1) % len(PFX)], PFX[(2 * i + 4) % len(PFX)]]
+        cc = [PFX[(2 * i + 2) % len(PFX)], PFX[(2 * i + 3) % len(PFX)]]
+        kc = [x for j, x in enumerate(kc) if x not in kc[:j]]
+        used.update([mem] + kc + cc)
+        k = (i * len(sim)) // nround
         bs = (sim[k:] + sim[:k])[:per]
-        # one replay process per memTree configuration: within it all behaviours and all par workers share the
-        # process globals (long-lived, history-dependent cache state), children are fresh per behaviour
-        ctx.replay(b, bs, opts=dict(cfgs='/'.join(LOCAL_PLAIN + [mem]), ccfgs='/'.join(ch), api='store', salt=1, variants=2,
-                                     stats=stats, restart='kill' if i % 2 else 'close'), par=6, count=(i == 0), timeout=7200)
+        ctx.replay(b, bs, opts=dict(cfgs='/'.join(LOCAL_PLAIN + [mem]), kcfgs='/'.join(kc), ccfgs='/'.join(cc), api='store', salt=1,
+                                     variants=2, stats=stats, keepdir=keep, restart='kill' if i % 2 else 'close'),
+                   par=6, count=(i == 0), timeout=7200)
     ctx.extra['configurations_exercised'] = sorted(used)
     _selftest_replay(ctx, b, sim, dict(cfgs='plain/prefix'))
     # code -> spec: recorded random runs on memTree configurations (fresh child per trace); the hash binding is a
@@ -207,24 +216,27 @@ def run_c04(ctx, q, b, stats):
     allb = ctx.tlc_genall('StateStore_All', cfg, timeout=7200)
     ctx.extra['exhaustive_small_config'] = dict(cfg=cfg, behaviours=len(allb))
     ctx.replay(b, allb, opts=dict(cfgs='plain/prefix', api='mix', salt=1, stats=stats), par=8, timeout=7200)
-    sub = allb[::8] if q else allb[::4]
-    ctx.replay(b, sub, opts=dict(cfgs='prefix', ccfgs='memtree+val', api='store', salt=2, restart='kill', stats=stats), par=6, count=False, timeout=7200)
+    keep = os.path.join(ctx.scratch, 'keep')
+    sub = allb[::16] if q else allb[::40]
+    ctx.replay(b, sub, opts=dict(cfgs='prefix', ccfgs='memtree+val', kcfgs='prefix+memtree', api='store', salt=2, restart='kill', stats=stats, keepdir=keep),
+               par=6, count=False, timeout=7200)
     _selftest_replay(ctx, b, allb, dict(cfgs='plain'))
     n = 120 if q else 1200
     sim = ctx.tlc_sim('StateStore_MC', 'StateStore_GenC04.cfg', num=n, depth=20, timeout=7200)
     ctx.replay(b, sim, opts=dict(cfgs='plain/prefix/prune', api='mix', salt=3, stats=stats), par=8, timeout=7200)
-    ctx.replay(b, sim[:len(sim) // 4], opts=dict(cfgs='plain', ccfgs='prefix+memtree/memtree+val', api='mix', salt=4, stats=stats), par=6, count=False, timeout=7200)
+    ctx.replay(b, sim[:len(sim) // 4] if q else sim[:len(sim) // 8], opts=dict(cfgs='plain', ccfgs='prefix+memtree/memtree+val', kcfgs='prune+memtree+val', api='mix', salt=4,
+                                                                    stats=stats, keepdir=keep), par=6, count=False, timeout=7200)
     if not q:
         for sd in range(1, 3):
             more = ctx.tlc_sim('StateStore_MC', 'StateStore_GenC04.cfg', num=n, depth=20, seed=ctx.seed * 100 + sd, timeout=7200)
             ctx.replay(b, more, opts=dict(cfgs='plain/prefix', api='mix', salt=4 + sd, stats=stats), par=8, timeout=7200)
-            ctx.replay(b, more[:len(more) // 6], opts=dict(cfgs='prune', ccfgs='prune+memtree+val/memtree', api='store', salt=7 + sd,
-                                                          restart='kill', stats=stats), par=6, count=False, timeout=7200)
+            ctx.replay(b, more[:len(more) // 10], opts=dict(cfgs='prune', ccfgs='prune+memtree+val', kcfgs='memtree/prefix+memtree+val', api='store', salt=7 + sd,
+                                                           restart='kill', stats=stats, keepdir=keep), par=6, count=False, timeout=7200)
     # sequential recordings with pending updates, then the concurrent leg
     ctx.validate_recording(b, 'StateStore_Trace', 'StateStore_Trace.cfg', recorder='seq',
                            opts=dict(n=3 if q else 10, keys=48, vals=3, maxbatch=24, depth=50 if q else 90, mode='pending', cfgs='plain/prefix'),
                            selftest=True, timeout=7200)
-    ctx.validate_recording(b, 'StateStore_Trace', 'StateStore_Trace.cfg', recorder='bus', dfs=True,
+    ctx.validate_recording(b, 'StateStore_Trace', 'StateStore_TraceBus.cfg', recorder='bus', dfs=True,
                            opts=dict(n=2 if q else 6, clients=4 if q else 8, reqs=25 if q else 60, keys=6, maxbatch=4,
                                      cfgs='plain/prefix/memtree+val' if not q else 'plain/prefix'),
                            selftest=True, timeout=7200)
